@@ -9,7 +9,7 @@ def _expr(e):
 
 
 def _kw(kwargs):
-    return "".join(" %s=%s" % (k, _expr(e)) for k, e in kwargs)
+    return "".join((" ...%s" % _expr(e)) if k == "..." else (" %s=%s" % (k, _expr(e))) for k, e in kwargs)
 
 
 def emit_nodes(nodes, owner_name, elems_echo=True):
